@@ -65,9 +65,16 @@ def c06(rng, qk):
     ns = rng.randint(1, 3)
     for i in range(ns):
         s.sink(f"S{i}")
+    # real file sinks, with and without a before_write callback: what flush_log() promises is that the file can be read
+    nf = rng.randint(0, 2)
+    for i in range(nf):
+        s.op(f"filesink F{i} bw={rng.choice([0, 1])}")
     # every sharing pattern: each logger gets a random ordered non-empty subset of the sinks
     for n in ("L0", "L1", "L2")[:rng.randint(2, 3)]:
         sub = rng.sample(s.sinks, rng.randint(1, ns))
+        if nf and rng.random() < 0.7:
+            sub = sub + [f"F{rng.randrange(nf)}"]
+            rng.shuffle(sub)
         s.logger(n, sub, lvl=0)
     for t in range(rng.randint(1, 3)):
         s.start(f"t{t}")
@@ -414,7 +421,19 @@ def c20(rng, qk, many=0):
                 for _ in range(rng.randint(2, 5)):
                     s.log(t, "L0", pad=min(cap, mx - qsys.HDR - 8))
                 s.op(f"T {t} shrink {rng.choice([cap // 2, cap, cap * 2, mx // 2])}")
-            elif r < 0.74 and s.alive:
+            elif r < 0.72 and len(s.alive) > 1:
+                # an already registered thread logs and exits while the backend is between the emptiness check of an idle
+                # poll and its context clean-up
+                t = rng.choice(sorted(s.alive - {"t0"}))
+                for u in sorted(s.alive):
+                    s.op(f"T {u} go")
+                s.op("B drain")
+                s.op("B pollf")
+                s.op("B until:IDLE3")
+                s.log(t, "L0", pad=rng.randint(0, 16))
+                s.join(t)
+                s.op("B until:-")
+            elif r < 0.76 and s.alive:
                 s.op(f"T {rng.choice(sorted(s.alive))} flush L0")      # a flush is also a context clean-up point
             elif r < 0.80 and s.alive:
                 s.op(f"T {rng.choice(sorted(s.alive))} go")
